@@ -28,9 +28,11 @@ def generate(rng, tier, rep):
         c = worldcase.gen_world(rng, opts=opts)
         for T in c['tests']:
             if rng.random() < 0.35 and not T.get('deco_skip'):
+                T.pop('xf', None)
                 T.update(rng.choice([{'body': 'fail', 'tearDown': 'error'}, {'subs': ['fail', 'error', 'fail']},
                                      {'body': 'error', 'cleanups': ['error', 'fail']}, {'setUp': 'error', 'cleanups': ['error']},
-                                     {'body': 'exit', 'tearDown': 'fail'}, {'xf': True, 'tearDown': 'error'}]))
+                                     {'body': 'exit', 'tearDown': 'fail'}, {'xf': True, 'tearDown': 'error'},
+                                     {'subs': ['fail', 'ok'], 'redirect_sub': True}, {'subs': ['error'], 'redirect_sub': True, 'body': 'fail'}]))
         cases.append(c)
     for c in cases:
         count_dist(rep, c)
